@@ -192,6 +192,18 @@ func c01Mutant(e *core.Env, r *core.Rand, text, rules string, first gen.Mutant, 
 	rec := ref.Recognise(text)
 	if rec.Verdict != ref.NonConforming {
 		e.Count("mutants_discarded_"+rec.Verdict.String(), 1)
+		// nothing is demanded about WHETHER such a text is accepted - but if it is, the records returned have to be
+		// complete values (every entry readable), and the call must come back
+		for _, p := range []parser.Parser{parser.NewSerialParser(), parser.NewParallelParser(3)} {
+			if pi := core.Guard(func() {
+				if rs, _, errs := p.Parse(text); errs == nil {
+					_ = obs.DocOf(rs)
+				}
+			}); pi != nil {
+				e.Violation("parse-panic: "+pi.Site(), fmt.Sprintf("parsing / reading the returned records of a text the reference leaves undecided panicked: %s", pi.Value), map[string]any{"text": text})
+				return
+			}
+		}
 		return
 	}
 	check := func(engine string, p parser.Parser) {
